@@ -545,3 +545,56 @@ Example ex_refused :
   handle_refused req =
   mkSmsg (mkMhdr 4660 true 0 false false true false false false true 5) [5%nat] [] [] [].
 Proof. reflexivity. Qed.
+
+(* ---------- stream framing ---------- *)
+Lemma read_frames_framed ms : forall t limit,
+  Forall (fun m => lenN m < 65536) ms -> incomplete_frame t ->
+  read_frames limit (flat_map frame ms ++ t) = firstn limit ms.
+Proof.
+  induction ms as [|m r IH]; intros t limit Hl Ht.
+  - destruct limit as [|k]; [reflexivity|]. cbn [flat_map app firstn].
+    destruct t as [|hi [|lo t']]; cbn [read_frames]; try reflexivity.
+    cbn in Ht. unfold lenN in Ht.
+    destruct (Nat.ltb (length t') (N.to_nat (hi * 256 + lo))) eqn:E; [reflexivity|].
+    apply Nat.ltb_ge in E. lia.
+  - inversion Hl as [|? ? Hm Hr]; subst.
+    destruct limit as [|k]; [reflexivity|].
+    cbn [flat_map firstn]. unfold frame at 1, u16. cbn [app read_frames].
+    rewrite <- app_assoc.
+    assert (En : N.to_nat ((lenN m / 256) mod 256 * 256 + lenN m mod 256) = length m).
+    { unfold lenN in *. lia. }
+    rewrite En.
+    assert (El : Nat.ltb (length (m ++ flat_map frame r ++ t)) (length m) = false).
+    { apply Nat.ltb_ge. rewrite app_length. lia. }
+    rewrite El.
+    rewrite firstn_app, Nat.sub_diag, firstn_all. cbn [firstn]. rewrite app_nil_r.
+    rewrite skipn_app, Nat.sub_diag, skipn_all. cbn [skipn app].
+    f_equal. apply IH; assumption.
+Qed.
+
+Lemma serve_stream_framed {R} (accept : header -> action) (unpack : bytes -> unpack_result R) ms t limit :
+  Forall (fun m => lenN m < 65536) ms -> incomplete_frame t ->
+  serve_stream accept unpack limit (flat_map frame ms ++ t) =
+  flat_map (serve accept unpack Tcp) (firstn limit ms).
+Proof. intros Hl Ht. unfold serve_stream. rewrite read_frames_framed by assumption. reflexivity. Qed.
+
+(* every message of the stream reaches the handler exactly as it would alone *)
+Lemma serve_stream_handler_calls {R} (accept : header -> action) (unpack : bytes -> unpack_result R) ms t limit :
+  Forall (fun m => lenN m < 65536) ms -> incomplete_frame t -> (length ms <= limit)%nat ->
+  handler_calls (serve_stream accept unpack limit (flat_map frame ms ++ t)) =
+  flat_map (fun m => handler_calls (serve accept unpack Tcp m)) ms.
+Proof.
+  intros Hl Ht Hn. rewrite serve_stream_framed by assumption.
+  rewrite firstn_all2 by assumption.
+  unfold handler_calls. clear. induction ms as [|m r IH]; [reflexivity|].
+  cbn [flat_map]. rewrite flat_map_app. f_equal. exact IH.
+Qed.
+
+(* two messages, the second rejected, then half a length prefix *)
+Example ex_stream :
+  serve_stream accept_default ex_unpack 128 (frame ex_response ++ frame ex_twoq ++ [0]) =
+  [EvWrite [18; 52; 129; 1; 0; 0; 0; 0; 0; 0; 0; 0]].
+Proof. reflexivity. Qed.
+Example ex_stream_premises :
+  Forall (fun m => lenN m < 65536) [ex_response; ex_twoq] /\ incomplete_frame [0] /\ incomplete_frame [0; 9; 1; 2].
+Proof. repeat split; try (repeat constructor; reflexivity). Qed.
